@@ -1034,14 +1034,30 @@ func (m *Model) applyScan(a []string) mResult {
 	}
 	out := "objects"
 	limit := 100
+	cursor := 0
+	desc := false
 	for i := 1; i < len(a); i++ {
 		switch lower(a[i]) {
+		case "cursor":
+			if i+1 >= len(a) {
+				return mResult{undef: true}
+			}
+			n, err := strconv.Atoi(a[i+1])
+			if err != nil || n < 0 {
+				return mResult{undef: true}
+			}
+			cursor = n
+			i++
+		case "asc":
+			desc = false
+		case "desc":
+			desc = true
 		case "limit":
 			if i+1 >= len(a) {
 				return mResult{undef: true}
 			}
 			n, err := strconv.Atoi(a[i+1])
-			if err != nil {
+			if err != nil || n < 1 {
 				return mResult{undef: true}
 			}
 			limit = n
@@ -1061,12 +1077,28 @@ func (m *Model) applyScan(a []string) mResult {
 	if out == "count" {
 		return res(expInt(len(ids)), false)
 	}
+	// one page of the plain map's id order: skip `cursor` ids, return up to `limit`; the reply
+	// carries cursor+limit when the page is full and 0 when it is not (documented paging)
+	if desc {
+		for i, j := 0, len(ids)-1; i < j; i, j = i+1, j-1 {
+			ids[i], ids[j] = ids[j], ids[i]
+		}
+	}
+	if cursor > len(ids) {
+		cursor = len(ids)
+	}
+	ids = ids[cursor:]
+	next := 0
 	if len(ids) >= limit {
-		return mResult{undef: true} // pagination is C11 territory
+		ids = ids[:limit]
+		next = cursor + limit
 	}
 	return res(func(v rv) error {
-		if v.T != '*' || len(v.A) != 2 || v.A[0].String() != ":0" || v.A[1].T != '*' {
+		if v.T != '*' || len(v.A) != 2 || v.A[1].T != '*' {
 			return fmt.Errorf("scan reply shape: %s", clipStr(v.String(), 200))
+		}
+		if v.A[0].String() != fmt.Sprintf(":%d", next) {
+			return fmt.Errorf("scan returned cursor %s, want %d (page of %d ids from offset %d)", v.A[0].String(), next, len(ids), cursor)
 		}
 		items := v.A[1].A
 		if len(items) != len(ids) {
